@@ -30,6 +30,11 @@ def site_of(msg):
     """<file>/<normalised panic message>: known findings are keyed by the panicking site, without line numbers (which
     shift with unrelated edits) and without the concrete numbers of the message."""
     msg = msg or ""
+    i = msg.find("PANIC panicked at")
+    if i >= 0:
+        # several worker threads may panic at once: the key is the first panic only
+        j = msg.find("PANIC panicked at", i + 1)
+        msg = msg[i:j] if j >= 0 else msg[i:]
     text = re.sub(r"PANIC panicked at \S+ ?", "", msg)
     text = text.split("Rayon:")[0].split("PANIC")[0].strip()
     text = re.sub(r"\d+", "N", text)
